@@ -164,5 +164,19 @@ PROPS["C12"] = {
     "trusted_base": ["compress/gzip, andybalholm/brotli, pierrec/lz4, klauspost/compress/zstd, golang/snappy"],
 }
 
+PROPS["C17"] = {
+    "suites": [{"name": "config", "quick": 3000, "thorough": 60000, "thorough_seeds": 3}],
+    "trip_re": "accepted_dangling|accepted_unresolvable.*|roundtrip_differs.*",
+    "rule": "config: configurations with 1-2 compress profiles and caches, 1-3 upstreams and locations, 1-2 servers, 30% of the names from a "
+            "list needing YAML quoting (yes, null, 123, 'a: b', ~, true, 0x1f, -, #x, [a], {b}, quotes, leading/trailing blank, tab, 1e3, off, "
+            "non-ASCII), optional fields set or unset; then exactly one of 18 defects (4 dangling references, 14 malformed fields) or none. "
+            "Observed: Validate's verdict class; for accepted ones, applied to the real registries, one probe request per server on two "
+            "(host, uri) pairs (never 'cache dispatcher not found' / 'upstream not found'), and Write -> Read equality. non-trivial = "
+            "every case; distinct = distinct (defect, configuration).",
+    "assumptions": ["PARTIAL: the struct-tag validators (go-playground/validator) and yaml.v2 are library code: they enter the theorems as structOK / the Yaml round-trip hypothesis and are compared in the suite",
+                    "servers name a cache (struct tag 'required')"],
+    "trusted_base": ["go-playground/validator", "gopkg.in/yaml.v2", "time.ParseDuration, humanize.ParseBytes, regexp.Compile, url.Parse in the custom validators"],
+}
+
 NOT_APPLICABLE = {}
 HOOK_COMMITS = ["ca43a57", "6332ff2"]
